@@ -20,6 +20,7 @@ import sys
 import tempfile
 import time
 import traceback
+import warnings
 from pathlib import Path
 
 import numpy as np
@@ -51,6 +52,10 @@ def plan(tier: str, seed: int) -> list[dict]:
                 gen.config_dict(rng, opt, scale=1, stop=rng.choice(["fe", "es", "both"])), tag="cont")
             add(opt, gen.task_desc(rng, "multiobj"), gen.config_dict(rng, opt, scale=rng.choice([1, 3]), max_cycles=rng.choice([1, 2, 4])), tag="cont")
             add(opt, gen.task_desc(rng, "contmulti", dim=rng.choice([1, 2, 6])), gen.config_dict(rng, opt, max_cycles=1), tag="cont")
+            # population sizes above the documented scale that are odd / not multiples of a group size
+            add(opt, gen.task_desc(rng, "contmulti"), gen.config_dict(rng, opt, scale=rng.choice([1, 1.5]), plus=rng.choice([1, 3, 5, 7]), max_cycles=rng.choice([2, 3]), jit=rng.random() < 0.5), tag="cont")
+            # the documented cycle budget and beyond (defects that only show in later cycles)
+            add(opt, gen.task_desc(rng, rng.choice(["contmulti", "cont"])), gen.config_dict(rng, opt, max_cycles=rng.choice([8, 10, 12, 20]), stop="cycles"), tag="cont")
             # solver modes
             add(opt, gen.task_desc(rng, "contmulti"), gen.config_dict(rng, opt, max_cycles=3), mode="thread", workers=rng.choice([1, 2, 3, 8]), tag="thread")
             if rep == 0:
@@ -136,6 +141,32 @@ def run_one(spec: dict, timeout: int = 120) -> dict:
     finally:
         signal.alarm(0)
     out["wall"] = round(time.time() - t0, 3)
+    # C07 / C08 on every serial run of the corpus: the same key again on a fresh instance (must be identical), and once
+    # more on that now-used instance (must be identical again)
+    out["repro"], out["reuse"] = 1, 1            # 1 = equal / not applicable, 0 = differs
+    if res is not None and spec["mode"] == "serial" and not spec.get("no_rerun"):
+        from .instance import digest
+        import pyvolutionary as _pv
+        d0 = digest(res)
+        signal.alarm(2 * timeout)
+        try:
+            with contextlib.redirect_stdout(io.StringIO()), np.errstate(all="ignore"), warnings.catch_warnings():
+                warnings.simplefilter("ignore")
+                tasks.REC.reset()
+                o2 = getattr(_pv, opt)(cfgcls(**spec["cfg"]))
+                r2 = o2.optimize(tasks.build_task(desc))
+                out["repro"] = 1 if digest(r2) == d0 else 0
+                tasks.REC.reset()
+                r3 = o2.optimize(tasks.build_task(desc))
+                out["reuse"] = 1 if digest(r3) == d0 else 0
+                out["reuse_immutable"] = 1 if digest(r2) == d0 or out["repro"] == 0 else 0
+        except _Timeout:
+            pass
+        except Exception as ex:
+            out["rerun_exception"] = type(ex).__name__
+            out["reuse"] = 0
+        finally:
+            signal.alarm(0)
     cfg1, task1 = _dump_model(cfg), _dump_model(task)
     calls = tasks.REC.load()
     if logpath:
@@ -408,7 +439,7 @@ def run_all(specs: list[dict], jobs: int = 14, timeout: int = 120) -> list[dict]
 
 TLC_FIELDS = ["id", "N", "dir", "D", "sizecls", "elitist", "kindp", "mc", "hasFe", "hasEs", "pat", "lefe", "dec", "nrates",
               "rate_ok", "steps", "gens", "ptab", "ftab", "dtab", "stab", "snaps", "evo", "best", "calls", "crash",
-              "completed", "cfg_same", "task_same", "trend_ok", "trend", "tpos", "sub"]
+              "completed", "cfg_same", "task_same", "trend_ok", "trend", "tpos", "sub", "repro", "reuse"]
 
 
 def judge_runs(records: list[dict], tag: str):
